@@ -86,8 +86,10 @@ def canon_feature(feat):
     return Feat(ftype, qual, tuple(cs), parts)
 
 
-def mk_record(c, circular=True, track=None):
+def mk_record(c, circular=True, track=None, topo=None):
     ann = {}
+    if topo is not None:
+        ann["topology"] = topo            # any letter case of "circular" is a declaration CircularRecord accepts
     if c.refs:
         ann["references"] = [mk_ref(k) for k in c.refs]
     la = {"track": list(track)} if track is not None else None
@@ -109,7 +111,7 @@ def canon_record(rec, rid=None):
 
 
 # ------------------------------------------------------------------ classes
-EntSpec = namedtuple("EntSpec", "oid cls crec faulty")
+EntSpec = namedtuple("EntSpec", "oid cls crec faulty topo", defaults=(None,))
 
 
 def cls_kind(cls):
@@ -353,7 +355,7 @@ def build_entities(v, mods):
     recs = {}
     def get(e):
         if e.oid not in objs:
-            rec = mk_record(e.crec)
+            rec = mk_record(e.crec, topo=e.topo)
             cls = faulty_subclass(e.cls) if e.faulty else e.cls
             objs[e.oid] = cls(rec)
             recs[e.oid] = rec
